@@ -613,6 +613,7 @@ class Eval:
                 self.res.calls.extend(r.calls)
                 self.res.asserts.extend(r.asserts)
                 self.res.stores.extend(r.stores)
+                self.res.argvals.update(r.argvals)
             else:
                 val = ("call", name, tuple(freeze(a) for a in args), self.uid())
                 # the referents of reference arguments at the time of the call (before any havoc), for rules that follow
